@@ -86,6 +86,8 @@ class ProjectionRegister:
             self.__tgt_projectors.add_data_entry(tgt_item, projector)
 
     def unapply_projector(self, projector, tgt_items):
+        # Passed targets may be the very set we are about to modify
+        tgt_items = tuple(tgt_items)
         self.__projector_tgts.rm_data_set(projector, tgt_items)
         for tgt_item in tgt_items:
             self.__tgt_projectors.rm_data_entry(tgt_item, projector)
